@@ -9,7 +9,8 @@ EXTENDS ClientIP, IOUtils
 \* ================================================================ the case space
 CONSTANTS MaxToks,    \* longest enumerated X-Forwarded-For list (family "scan")
           Big,        \* FALSE: quick tier (two text forms per address, two spacing patterns); TRUE: all
-          NRand       \* number of pseudo-random cases
+          NRand,      \* number of pseudo-random cases
+          Part        \* "all", or one of "scan" "rand" "rest": the thorough tier computes the space in three TLC processes
 Seed == atoi(IOEnv.VERIF_SEED)     \* the run's seed (bin/vcheck --seed), from the environment
 
 Seqs(S, lo, hi) == UNION {[1 .. k -> S] : k \in lo .. hi}
@@ -48,22 +49,22 @@ ScanToks == {T(Ix(10, 0, 0, 0), "dot"), T(Ix(10, 255, 255, 255), "map"), T(Ix(9,
 ScanXRI == {<< >>, <<T(Ix(8, 8, 8, 8), "dot")>>, <<B(5)>>, <<T(Ix(10, 0, 0, 0), "dot")>>}
 ScanNames == {<<XFF0, XRI0>>, <<XRI0, XFF0>>, <<XFF0>>}
 ScanRemotes == {RemoteIP(Ix(10, 0, 0, 1), "dot", "", FALSE), RemoteIP(Ix(8, 8, 8, 8), "dot", "", FALSE)}
-FamScan ==
-  UNION {{MkCase("scan", "opt", r, FALSE, <<C10>>, nm,
-                 (IF x = << >> THEN << >> ELSE <<Line("XFF", 0, Pat(x, p))>>) \o
-                 (IF y = << >> THEN << >> ELSE <<Line("XRI", 0, y)>>)) :
-            r \in ScanRemotes, nm \in ScanNames, y \in ScanXRI,
-            p \in {q \in Pats : Big \/ q = "std" \/ Len(x) <= 2}} : x \in Seqs(ScanToks, 0, MaxToks)}
+ScanXP == {xp \in Seqs(ScanToks, 0, MaxToks) \X Pats : xp[2] = "std" \/ Len(xp[1]) <= 2 \/ (Big /\ Len(xp[1]) <= 3)}
+FamScan == IF Part \notin {"all", "scan"} THEN {} ELSE
+  {MkCase("scan", "opt", r, FALSE, <<C10>>, nm,
+          (IF xp[1] = << >> THEN << >> ELSE <<Line("XFF", 0, Pat(xp[1], xp[2]))>>) \o
+          (IF y = << >> THEN << >> ELSE <<Line("XRI", 0, y)>>)) :
+     r \in ScanRemotes, nm \in ScanNames, y \in ScanXRI, xp \in ScanXP}
 
 \* --- family "entry": membership of a list entry at the boundaries of every CIDR, every address, every form
 \* (the peer is trusted through the anchor range; the first entry is an untrusted sentinel)
 AF == UNION {{<<x, f>> : f \in FormsQ(x)} : x \in 1 .. NA}      \* every address in every text form of the tier
-FamEntry ==
+FamEntry == IF Part \notin {"all", "rest"} THEN {} ELSE
   {MkCase("entry", "opt", AnchorR, FALSE, <<AllCidrs[ci], AnchorC>>, <<XFF0>>,
           <<Line("XFF", 0, Pat(<<T(Ix(8, 8, 4, 4), "dot"), T(xf[1], xf[2])>>, "std"))>>) :
      ci \in 1 .. Len(AllCidrs), xf \in AF}
 \* --- family "peer": membership of the peer itself (own net.Addr in every form; real *net.TCPAddr for canonical ones)
-FamPeer ==
+FamPeer == IF Part \notin {"all", "rest"} THEN {} ELSE
   UNION {{MkCase("peer", "opt", RemoteIP(xf[1], xf[2], pr[1], pr[2]), FALSE, <<AllCidrs[ci]>>, <<XFF0>>,
                  <<Line("XFF", 0, <<T(Ix(8, 8, 8, 8), "dot")>>)>>) :
             ci \in 1 .. Len(AllCidrs),
@@ -81,11 +82,11 @@ KindOpts == {<<TRUE, << >>>>, <<FALSE, << >>>>, <<FALSE, <<Cidrs4[8]>>>>, <<FALS
              <<FALSE, <<Cidr(Ix(0, 0, 0, 0), 32, "dot")>>>>}
 KindLines == {<< >>, <<Line("XFF", 0, <<T(Ix(8, 8, 8, 8), "dot")>>)>>,
               <<Line("XFF", 0, <<B(2)>>), Line("XRI", 0, <<T(Ix(1, 2, 3, 4), "dot")>>)>>}
-FamKinds == {MkCase("kinds", "opt", r, o[1], o[2], <<XFF0, XRI0>>, ls) : r \in KindRemotes, o \in KindOpts, ls \in KindLines}
+FamKinds == IF Part \notin {"all", "rest"} THEN {} ELSE {MkCase("kinds", "opt", r, o[1], o[2], <<XFF0, XRI0>>, ls) : r \in KindRemotes, o \in KindOpts, ls \in KindLines}
 
 \* --- family "multi": several lines of one name (A6)
 MultiToks == {T(Ix(10, 0, 0, 0), "dot"), T(Ix(9, 255, 255, 255), "dot"), T(Ix(11, 0, 0, 0), "dot"), B(2)}
-FamMulti ==
+FamMulti == IF Part \notin {"all", "rest"} THEN {} ELSE
   {MkCase("multi", "opt", AnchorR, FALSE, <<C10, AnchorC>>, <<XFF0, XRI0>>,
           <<Line("XFF", 0, Pat(x, "std"))>> \o mid \o <<Line("XFF", v, Pat(y, "std"))>>) :
      x \in Seqs(MultiToks, 1, 2), y \in Seqs(MultiToks, 1, 2), v \in {0, 1},
@@ -100,7 +101,7 @@ DefToks == {T(Ix(1, 2, 3, 4), "dot"), T(Ix(10, 0, 0, 1), "map"), T(Ix6("2001:db8
 DefRemotes == {RemoteIP(Ix(10, 0, 0, 1), "dot", "", TRUE), RemoteIP(Ix6("2001:db8::1"), "short", "", TRUE),
                RemoteIP(Ix(1, 2, 3, 4), "map", "", FALSE), RemoteNoConn, RemoteUnix("unix", "/tmp/hertz.sock"),
                RemoteHost("localhost", "name"), RemoteNoPort("10.0.0.1"), RemoteIP(Ix6("::a00:1"), "full", "", FALSE)}
-FamDefault ==
+FamDefault == IF Part \notin {"all", "rest"} THEN {} ELSE
   {MkCase("default", "default", r, FALSE, << >>, << >>,
           (IF x = << >> THEN << >> ELSE <<Line("XFF", v, Pat(x, "std"))>>) \o
           (IF y = << >> THEN << >> ELSE <<Line("XRI", v, y)>>)) :
@@ -109,7 +110,7 @@ FamDefault ==
 \* --- family "names": which headers are consulted, in which order, spelled how
 NameLists == {<< >>, <<Name("CIP", 0)>>, <<Name("XRI", 1), Name("XFF", 2)>>, <<XFF0, XFF0>>,
               <<Name("CIP", 2), XFF0, Name("XRI", 2)>>, <<Name("XRI", 0)>>, <<Name("XFF", 1)>>}
-FamNames ==
+FamNames == IF Part \notin {"all", "rest"} THEN {} ELSE
   {MkCase("names", "opt", AnchorR, FALSE, <<AnchorC>>, nm,
           <<Line("XRI", v, <<a>>), Line("CIP", v, <<b>>), Line("XFF", (v + 1) % 3, <<c>>)>>) :
      nm \in NameLists, v \in 0 .. 2, a \in {T(Ix(1, 2, 3, 4), "dot"), B(2)}, b \in {T(Ix(1, 2, 3, 5), "dot"), B(3)},
@@ -152,7 +153,7 @@ RandCase(i) ==
             nc = 0 /\ R(i, 15) % 2 = 0, [j \in 1 .. nc |-> RandCidr(i, 20 + 3 * j)],
             NameListSeq[(R(i, 16) % Len(NameListSeq)) + 1],
             CASE ord = 0 -> l1 \o l2 \o l3 \o l4 [] ord = 1 -> l2 \o l3 \o l1 \o l4 [] OTHER -> l3 \o l1 \o l4 \o l2)
-FamRand == {RandCase(i) : i \in 1 .. NRand}
+FamRand == IF Part \notin {"all", "rand"} THEN {} ELSE {RandCase(i) : i \in 1 .. NRand}
 
 Space == FamScan \cup FamEntry \cup FamPeer \cup FamKinds \cup FamMulti \cup FamDefault \cup FamNames \cup FamRand
 
